@@ -78,6 +78,12 @@ def gen_docs(tier, seed, tmpl):
         if rng.random() < 0.2:
             doc["extra"] = {"keys": [1, 2]}
         docs.append((None, json.dumps(doc).encode()))
+    # elements (and single JWKs inside a set) that themselves carry a member named "keys": still exactly one item each
+    for inner in [[], None, "x", 5, {}, [{"kty": "oct", "k": "AAAA", "kid": "inner-1"}], [{"kty": "oct", "k": "AAAA", "kid": "inner-1"}, {"kty": "nope", "kid": "inner-2"}]]:
+        for base in (tmpl[0], tmpl[3 % len(tmpl)], {"kty": "nope"}, {}):
+            el = dict(base); el["kid"] = "nested-el"; el["keys"] = inner
+            docs.append((None, json.dumps({"keys": [dict(tmpl[0], kid="first"), el, dict(tmpl[0], kid="last")]}).encode()))
+            docs.append((0, json.dumps({"keys": [el]}).encode()))
     for kv in [None, 1, "x", True, {}, {"kty": "oct", "k": "AAAA"}, 1.5, [], [[]], [[{"kty": "oct", "k": "AAAA"}]]]:
         docs.append((None, json.dumps({"keys": kv}).encode()))
         docs.append((0, json.dumps({"keys": kv, "kty": "oct", "k": "AAAA"}).encode()))
